@@ -140,7 +140,7 @@ def main():
         setup_cmd="bash tools/setup.sh",
         hooks=dict(guard="fpdec_verif", enable='RUSTFLAGS="--cfg fpdec_verif" (set by tools/check.py and tools/setup.sh when building /verif/harness against /repo)',
                    baseline_off_cmd="cd /repo && cargo nextest run --workspace --no-fail-fast --offline || cargo test --workspace --no-fail-fast --offline",
-                   source_commits=[], add_only=True),
+                   source_commits=["fbb9d73"], add_only=True),
         engines=[dict(name="rocq-model", path="coq/", serves_properties=sorted(CHECKS),
                       kind_free_text="machine-checked proof in Rocq/Coq 8.16.1 of model = specification; extracted model and specification (OCaml) run against the Rust harness")],
         checks=checks,
